@@ -89,8 +89,16 @@ class ConnMan:
         """
         Helper function for in-place update of bus connectivity.
         """
-        self.changes['on'][...] = np.logical_and(self.busu0 == 0, self.system.Bus.u.v == 1)
-        self.changes['off'][...] = np.logical_and(self.busu0 == 1, self.system.Bus.u.v == 0)
+        on = np.logical_and(self.busu0 == 0, self.system.Bus.u.v == 1)
+        off = np.logical_and(self.busu0 == 1, self.system.Bus.u.v == 0)
+
+        # keep the changes that were recorded earlier but have not been acted upon
+        if self.is_needed:
+            on = np.logical_or(on, self.changes['on'])
+            off = np.logical_or(off, self.changes['off'])
+
+        self.changes['on'][...] = on
+        self.changes['off'][...] = off
         self.busu0[...] = self.system.Bus.u.v
 
     def record(self):
